@@ -56,10 +56,26 @@ class Tr:
             return str(val), "nat"
         raise Untranslatable("constant of unsupported type %r" % (val,))
 
-    def tr(self, node):
+    def lookup(self, node):
+        """environment entry for a sub-expression: exact text, `len(_)` for any len() call, `*.attr` for any attribute chain
+        ending in .attr, `name.*` for any attribute of the variable `name` (so that private attribute names do not matter)"""
         text = ast.unparse(node)
         if text in self.env:
             return self.env[text]
+        if isinstance(node, ast.Call) and isinstance(node.func, ast.Name) and node.func.id == "len" and "len(_)" in self.env:
+            return self.env["len(_)"]
+        if isinstance(node, ast.Attribute):
+            if "*." + node.attr in self.env:
+                return self.env["*." + node.attr]
+            if isinstance(node.value, ast.Name) and node.value.id + ".*" in self.env:
+                return self.env[node.value.id + ".*"]
+        return None
+
+    def tr(self, node):
+        text = ast.unparse(node)
+        hit = self.lookup(node)
+        if hit is not None:
+            return hit
         if isinstance(node, ast.Constant):
             if node.value is None:
                 return "none", "none"
@@ -113,6 +129,10 @@ class Tr:
         t, ty = self.tr(node)
         if ty == "bool":
             return t
+        if ty == "onat":            # truthiness of an optional int: present and non-zero
+            return "(match %s with | some v_ => decide (v_ ≠ 0) | none => false)" % t
+        if ty == "nat":
+            return "decide (%s ≠ 0)" % t
         if ty == "ostr":            # truthiness of an optional string is not used at the curated sites
             raise Untranslatable("truthiness of " + ast.unparse(node))
         raise Untranslatable("not boolean: " + ast.unparse(node))
@@ -179,7 +199,12 @@ def find_function(tree, qualname):
                 found = ch
                 break
         if found is None:
-            return None
+            # a function defined inside a conditional block of its parent (`if polling_enabled: async def poll(): ...`)
+            deeper = [ch for ch in ast.walk(node) if ch is not node
+                      and isinstance(ch, (ast.ClassDef, ast.FunctionDef, ast.AsyncFunctionDef)) and ch.name == p]
+            if len(deeper) != 1:
+                return None
+            found = deeper[0]
         node = found
     return node
 
@@ -190,6 +215,9 @@ def candidates(fn, kind):
             yield node.test
         elif kind == "while" and isinstance(node, ast.While):
             yield node.test
+        elif kind == "if" and isinstance(node, ast.comprehension):
+            for c in node.ifs:
+                yield c
         elif kind == "return" and isinstance(node, ast.Return) and node.value is not None:
             yield node.value
         elif kind.startswith("assign:") and isinstance(node, ast.Assign) and len(node.targets) == 1 \
@@ -198,8 +226,9 @@ def candidates(fn, kind):
 
 
 def mentions(expr, names):
+    """every name occurs in the expression's text; a name written `!x` must NOT occur"""
     text = ast.unparse(expr)
-    return all(n in text for n in names)
+    return all((n[1:] not in text) if n.startswith("!") else (n in text) for n in names)
 
 
 SITES = [
@@ -224,6 +253,47 @@ SITES = [
      {"self.device": ("cbDev", "ostr"), "self.vector": ("cbVec", "ostr"), "self.element": ("cbElem", "ostr"),
       "event.device.name if event.device else None": ("evDev", "ostr"), "event.vector.name if event.vector else None": ("evVec", "ostr"),
       "event.element.name if event.element else None": ("evElem", "ostr"), "isinstance(event, self.event_type)": ("typeOk", "bool")}),
+    # --- Router: who is offered a message at all (C04, C05)
+    ("routerToDevice", "indi/routing/router.py", "indi.routing.router", "Router.process_message", "if", ["device", "sender", "accepts"],
+     "fun (isSender : Bool) (accepts : Bool) =>", "Bool → Bool → Bool",
+     {"device == sender": ("isSender", "bool"), "device is sender": ("isSender", "bool"), "sender == device": ("isSender", "bool"), "sender is device": ("isSender", "bool"),
+      "device != sender": ("(!isSender)", "bool"), "device is not sender": ("(!isSender)", "bool"),
+      "device.accepts(message.device)": ("accepts", "bool")}),
+    ("routerToClient", "indi/routing/router.py", "indi.routing.router", "Router.process_message", "if", ["client", "sender", "!client_blob_policy"],
+     "fun (isSender : Bool) =>", "Bool → Bool",
+     {"client == sender": ("isSender", "bool"), "client is sender": ("isSender", "bool"), "sender == client": ("isSender", "bool"), "sender is client": ("isSender", "bool"),
+      "client != sender": ("(!isSender)", "bool"), "client is not sender": ("(!isSender)", "bool")}),
+    # --- Buffer: a complete element that is not a message is skipped (C11, C12)
+    ("bufSkip", "indi/transport/buffer.py", "indi.transport.buffer", "Buffer.process", "if", ["not message", "end"],
+     "fun (found : Bool) (e : Option Nat) =>", "Bool → Option Nat → Bool",
+     {"message": ("found", "bool"), "end": ("e", "onat")}),
+    # --- SwitchVector.apply_rule (C09)
+    ("switchTurnsOn", "indi/device/properties/instance/vectors.py", "indi.device.properties.instance.vectors", "SwitchVector.apply_rule", "if", ["new_value", "=="],
+     "fun (v : Str) =>", "Str → Bool", {"new_value": ("v", "str")}),
+    ("switchClearsOthers", "indi/device/properties/instance/vectors.py", "indi.device.properties.instance.vectors", "SwitchVector.apply_rule", "if", ["rule", "AT_MOST_ONE"],
+     "fun (rule : Str) =>", "Str → Bool", {"*.rule": ("rule", "str")}),
+    ("switchKeepsLast", "indi/device/properties/instance/vectors.py", "indi.device.properties.instance.vectors", "SwitchVector.apply_rule", "if", ["rule", "!AT_MOST_ONE"],
+     "fun (rule : Str) =>", "Str → Bool", {"*.rule": ("rule", "str")}),
+    ("switchIsOtherOn", "indi/device/properties/instance/vectors.py", "indi.device.properties.instance.vectors", "SwitchVector.apply_rule", "if", ["el", "sender", "!len("],
+     "fun (other : Bool) (v : Str) =>", "Bool → Str → Bool",
+     {"el != sender": ("other", "bool"), "el is not sender": ("other", "bool"), "sender != el": ("other", "bool"), "sender is not el": ("other", "bool"),
+      "el == sender": ("(!other)", "bool"), "el is sender": ("(!other)", "bool"), "el.*": ("v", "str")}),
+    ("switchNoOtherOn", "indi/device/properties/instance/vectors.py", "indi.device.properties.instance.vectors", "SwitchVector.apply_rule", "if", ["len("],
+     "fun (n : Nat) =>", "Nat → Bool", {"len(_)": ("n", "nat")}),
+    # --- a property is published only while it and its group are switched on (C07)
+    ("vectorEnabled", "indi/device/properties/instance/vectors.py", "indi.device.properties.instance.vectors", "Vector.enabled", "return", ["group"],
+     "fun (own : Bool) (grp : Bool) =>", "Bool → Bool → Bool",
+     {"self.group.enabled": ("grp", "bool"), "self._group.enabled": ("grp", "bool"), "self.*": ("own", "bool")}),
+    # --- waitforevent (C17)
+    ("waitRelease", "indi/client/client.py", "indi.client.client", "BaseClient.waitforevent.cb", "if", ["release", "lock"],
+     "fun (release : Bool) (lockSet : Bool) =>", "Bool → Bool → Bool",
+     {"release": ("release", "bool"), "lock.is_set()": ("lockSet", "bool")}),
+    ("waitPollGuard", "indi/client/client.py", "indi.client.client", "BaseClient.waitforevent.poll", "while", ["lock"],
+     "fun (lockSet : Bool) =>", "Bool → Bool", {"lock.is_set()": ("lockSet", "bool")}),
+    ("waitTimeoutGuard", "indi/client/client.py", "indi.client.client", "BaseClient.waitforevent.timeout_check", "if", ["lock"],
+     "fun (lockSet : Bool) =>", "Bool → Bool", {"lock.is_set()": ("lockSet", "bool")}),
+    ("waitTimeoutArmed", "indi/client/client.py", "indi.client.client", "BaseClient.waitforevent", "if", ["timeout", "!lock", "!result"],
+     "fun (timeout : Option Nat) =>", "Option Nat → Bool", {"timeout": ("timeout", "onat")}),
 ]
 
 
@@ -237,13 +307,16 @@ def translate_all(repo=REPO):
             if fn is None:
                 raise Untranslatable("function %s not found" % qual)
             cands = [c for c in candidates(fn, kind) if mentions(c, must)]
-            if len(cands) != 1:
-                raise Untranslatable("%d candidate expressions" % len(cands))
+            if not cands:
+                raise Untranslatable("0 candidate expressions")
             module = importlib.import_module(modname)
-            t, ty = Tr(env, module).tr(cands[0])
-            if ty != "bool":
-                raise Untranslatable("expression is not boolean")
-            term = t
+            results = []
+            for c in cands:
+                t, ty = Tr(env, module).tr(c)
+                results.append(Tr(env, module).as_bool(c) if ty != "bool" else t)
+            if len(set(results)) != 1:            # the same decision written at several places must read the same everywhere
+                raise Untranslatable("%d candidate expressions with different readings" % len(cands))
+            term = results[0]
             notes[name] = ast.unparse(cands[0])
         except Untranslatable as e:
             why = str(e)
